@@ -25,6 +25,18 @@ Model of the caches of py-pde (property C04).  Core Lean only.
 (v)   cached helpers that captured a buffer identity (`make_interpolator`, and the prepared
       right-hand side of a `PDE` with a field-valued constant), and the numba-compiled
       right-hand side, which carries a COPY of the constant's content made at compile time.
+(vi)  the operator registry (`BackendBase._operators`, `register_operator`, `get_operator_info`)
+      and the caches that can be asked with an operator NAME: `GridBase.make_operator_no_bc`
+      (per grid object), `NumbaBackend.make_operator` (per backend), the prepared right-hand
+      side of a `PDE` object.  A request carries the registration table of the moment of the
+      call; the key is derived either from the name only (`NameKey.byName`) or from the
+      `OperatorInfo` the name resolves to (`NameKey.byInfo`: the registration is part of the key).
+(vii) the operator table `PDE._prepare_cache` builds for the right-hand sides of the variables
+      (`_add_operators_to_expr`: `if func in ops: continue`), parametrised by the key of the
+      table: `(variable, operator)` (every variable gets its own `.copy()` of the general table:
+      the code as it is) or the operator name only (one table for all variables), and the
+      selection of the boundary condition for `VARIABLE:OPERATOR` (`PDE.bcs`, first match in
+      dictionary order, wildcard `*`).
 -/
 namespace PdeVerif.Cache
 
@@ -672,5 +684,165 @@ def opReqKeyG (d : Deriv) (r : OpReq) : Key :=
   cacheKeyG d [] [] (opReqArgs r) (opReqKwargs r)
 
 abbrev opReqKey := opReqKeyG Deriv.cur
+
+/-! ## (vi) the operator registry and caches asked with an operator name
+
+`BackendBase._operators[grid_cls][name] = OperatorInfo(factory, ...)` is a class attribute:
+`register_operator` overwrites the entry of one (backend class, grid class) slot,
+`get_operator_info(grid, name)` walks the backend classes (outer loop) and the grid classes (inner
+loop) in method-resolution order and returns the first entry with that name.  For one querying
+(backend, grid class) pair the slots are numbered by their position in that walk (`level`); a
+factory is identified by a number. -/
+
+/-- entries `((level, name), factory id)` -/
+abbrev Registry := List ((Nat × String) × Nat)
+
+/-- `register_operator`: the entry of the slot is overwritten -/
+def Registry.register (r : Registry) (level : Nat) (name : String) (fid : Nat) : Registry :=
+  ((level, name), fid) :: r.filter (fun e => !(e.1 == (level, name)))
+
+/-- `del backend._operators[grid_cls][name]` -/
+def Registry.unregister (r : Registry) (level : Nat) (name : String) : Registry :=
+  r.filter (fun e => !(e.1 == (level, name)))
+
+/-- the better of two candidates: the one found earlier in the walk -/
+def Registry.better (best : Option (Nat × Nat)) (e : (Nat × String) × Nat) : Option (Nat × Nat) :=
+  match best with
+  | none => some (e.1.1, e.2)
+  | some b => if e.1.1 < b.1 then some (e.1.1, e.2) else some b
+
+/-- `get_operator_info`: the factory the name denotes now (`none`: `NotImplementedError`) -/
+def Registry.resolve (r : Registry) (name : String) : Option Nat :=
+  ((r.filter (fun e => e.1.2 == name)).foldl Registry.better none).map (·.2)
+
+/-- a call of a cached method with an operator name.  `cache`: the object whose cache is asked (a
+grid object, the backend, a `PDE` object); `rest`: everything else of the call (backend, boundary
+conditions, keyword arguments, state attributes), abstracted to a number; `reg`: the registration
+table at the time of the call -/
+structure NameReq where
+  cache : Nat
+  name : String
+  rest : Nat
+  reg : Registry
+deriving Repr
+
+/-- what a fresh construction hands out: the implementation made by the factory that the name
+denotes NOW (`none`: the call raises `NotImplementedError`) -/
+def NameReq.sem (q : NameReq) : Option Nat := q.reg.resolve q.name
+
+/-- how the key of the cache treats the operator: `byName` - the name itself is hashed
+(`grid.make_operator_no_bc("op")`, `backend.make_operator(grid, "op", bcs=...)`, and - with the
+empty key contribution - a `PDE` object, whose cache is validated by the state attributes only);
+`byInfo` - the name is resolved first and the `OperatorInfo` (a tuple containing the factory
+function, hashed by identity) is hashed (`DataFieldBase.apply_operator`, `GridBase.make_operator`) -/
+inductive NameKey where
+  | byName
+  | byInfo
+deriving Repr, DecidableEq
+
+abbrev NameK := Nat × String × Nat × Option (Option Nat)
+
+def NameReq.key (k : NameKey) (q : NameReq) : NameK :=
+  match k with
+  | .byName => (q.cache, q.name, q.rest, none)
+  | .byInfo => (q.cache, q.name, q.rest, some (q.reg.resolve q.name))
+
+/-- one cached call.  A call that raises stores nothing (the wrapper stores the result after the
+method returned). -/
+def regCall (k : NameKey) (c : List (NameK × Nat)) (q : NameReq) : List (NameK × Nat) × Option Nat :=
+  match c.lookup (q.key k) with
+  | some v => (c, some v)
+  | none =>
+    match q.sem with
+    | none => (c, none)
+    | some fid => ((q.key k, fid) :: c, some fid)
+
+def regRunAll (k : NameKey) : List (NameK × Nat) → List NameReq → List (Option Nat)
+  | _, [] => []
+  | c, q :: qs => (regCall k c q).2 :: regRunAll k (regCall k c q).1 qs
+
+/-- events of a history: registrations, removals, and queries -/
+inductive RegEv where
+  | register (level : Nat) (name : String) (fid : Nat)
+  | unregister (level : Nat) (name : String)
+  | query (cache : Nat) (name : String) (rest : Nat)
+deriving Repr
+
+/-- the requests of a history, each with the registration table of its moment -/
+def regRequests : Registry → List RegEv → List NameReq
+  | _, [] => []
+  | r, .register l n f :: es => regRequests (r.register l n f) es
+  | r, .unregister l n :: es => regRequests (r.unregister l n) es
+  | r, .query c n x :: es => ⟨c, n, x, r⟩ :: regRequests r es
+
+/-- what the queries of a history return through the cache -/
+def regRun (k : NameKey) (es : List RegEv) : List (Option Nat) := regRunAll k [] (regRequests [] es)
+
+/-- what they return without any cache (= in a fresh process that performed the registrations) -/
+def regRef (es : List RegEv) : List (Option Nat) := (regRequests [] es).map NameReq.sem
+
+/-! ## (vii) the operator table of a `PDE` with several variables -/
+
+/-- one equation: the variable and the operator names its expression uses (`PDE._operators[var]`) -/
+structure VarSpec where
+  name : String
+  ops : List String
+deriving Repr, DecidableEq
+
+section OpTable
+variable {κ V : Type} [DecidableEq κ]
+
+/-- `_add_operators_to_expr` for one variable: `for func in ops_of_var: if func in table: continue;
+table[func] = make_operator(func, bc selected for (var, func))` -/
+def addOpsK (key : String → String → κ) (build : String → String → V) (tab : List (κ × V)) (v : VarSpec) :
+    List (κ × V) :=
+  v.ops.foldl (fun t o => match t.lookup (key v.name o) with
+    | some _ => t
+    | none => (key v.name o, build v.name o) :: t) tab
+
+/-- the table after all variables were prepared, in the order of the variables.  (An entry is never
+overwritten or removed, so what the expression of a variable finds under its keys when it is compiled
+is what the final table holds.) -/
+def prepareK (key : String → String → κ) (build : String → String → V) (init : List (κ × V))
+    (vars : List VarSpec) : List (κ × V) :=
+  vars.foldl (addOpsK key build) init
+
+/-- the operator the expression of `var` calls under the name `op` -/
+def servedK (key : String → String → κ) (build : String → String → V) (init : List (κ × V))
+    (vars : List VarSpec) (var op : String) : Option V :=
+  (prepareK key build init vars).lookup (key var op)
+
+end OpTable
+
+/-- the key of the table: every variable has its own copy of the general table (the code as it is:
+`ops_general.copy()`), i.e. the table is keyed by (variable, operator) - or one table for all
+variables, keyed by the operator name only -/
+inductive TableKey where
+  | perVar
+  | shared
+deriving Repr, DecidableEq
+
+def TableKey.key : TableKey → String → String → String × String
+  | .perVar, v, o => (v, o)
+  | .shared, _, o => ("", o)
+
+/-- `PDE.bcs` in dictionary order: (variable pattern, operator pattern) -/
+abbrev BcKeys := List (String × String)
+
+def patMatch (pat x : String) : Bool := pat == "*" || pat == x
+
+/-- the boundary condition chosen for an operator in the equation of a variable: index of the first
+entry in dictionary order whose patterns match (`none`: `RuntimeError`) -/
+def selectBC (bcs : BcKeys) (var op : String) : Option Nat :=
+  let i := bcs.findIdx (fun e => patMatch e.1 var && patMatch e.2 op)
+  if i < bcs.length then some i else none
+
+/-- which boundary-condition entry the operator `op` in the equation of `var` is built with -/
+def servedBC (k : TableKey) (bcs : BcKeys) (vars : List VarSpec) (var op : String) : Option (Option Nat) :=
+  servedK k.key (selectBC bcs) [] vars var op
+
+/-- `diagnostics["pde"]["bcs_used"]`: the entries some operator was built with -/
+def bcsUsed (k : TableKey) (bcs : BcKeys) (vars : List VarSpec) : List Nat :=
+  ((prepareK k.key (selectBC bcs) [] vars).filterMap (·.2)).eraseDups
 
 end PdeVerif.Cache
